@@ -28,6 +28,25 @@ def worktree(path):
     if not os.path.isdir(path):
         sh(f'git -C /repo worktree add -q --detach {path} HEAD')
 
+BASE_LOCK = threading.Lock()
+
+def base_commit():
+    return open('/verif/mutants/auto/BASE').read().strip()
+
+def mutant_diff(m):
+    """unified diff of a mutant, produced in a worktree at the commit the mutant list was generated from"""
+    if m.get('diff'):
+        return m['diff']
+    with BASE_LOCK:
+        wt = f'{MT}/base'
+        if not os.path.isdir(wt):
+            sh(f'git -C /repo worktree add -q --detach {wt} {base_commit()}')
+        sh('git checkout -q -- .', cwd=wt)
+        subprocess.run([MUTGEN, 'apply', wt, m['file'], str(m['start']), str(m['end']), m['to']], check=True)
+        rc, d = sh('git diff', cwd=wt)
+        sh('git checkout -q -- .', cwd=wt)
+        return d
+
 MUX_ALL = ['C01', 'C02', 'C03', 'C04', 'C05', 'C16', 'C18', 'C19', 'C06', 'C07', 'C08']
 CLI_ALL = ['C09', 'C10', 'C11', 'C12', 'C13', 'C20']
 
@@ -103,6 +122,7 @@ def phase2(p1, out, workers, only):
         vf = f'{MT}/e{k}/verif'
         os.makedirs(f'{MT}/e{k}', exist_ok=True)
         worktree(wt)
+        sh('git checkout -q -- . && git checkout -q --detach ' + sh('git -C /repo rev-parse HEAD')[1].strip(), cwd=wt)
         sh(f'rsync -a --delete --exclude .git --exclude .build --exclude logs --exclude replays --exclude evidence --exclude seeded --exclude mutants /verif/ {vf}/')
         sh(f"sed -i 's#=> /repo#=> {wt}#' {vf}/go.mod")
         while True:
@@ -111,7 +131,15 @@ def phase2(p1, out, workers, only):
             except queue.Empty:
                 return
             sh('git checkout -q -- .', cwd=wt)
-            subprocess.run([MUTGEN, 'apply', wt, m['file'], str(m['start']), str(m['end']), m['to']], check=True)
+            d = mutant_diff(m)
+            open(f'{MT}/e{k}/m.diff', 'w').write(d)
+            rc, o = sh(f'git apply {MT}/e{k}/m.diff', cwd=wt)
+            if rc != 0:
+                m['caught_by'] = None
+                m['results'] = {'apply': {'rc': rc, 'key': 'the mutant no longer applies to HEAD: ' + o[-200:]}}
+                with lock:
+                    fo.write(json.dumps(m) + '\n'); fo.flush()
+                continue
             res = {}
             caught = None
             for cid in (m.get('checks') or checks_for(m)):
